@@ -139,6 +139,48 @@ def judge(warm: dict[str, Any], cold: dict[str, Any]) -> dict[str, Any] | None:
     return {"kind": "next_run_differs", "diff": runner.first_difference(warm, cold)}
 
 
+def bump(h: histsim.History, half: int) -> None:
+    """A comment-only change to every second source file: those modules are re-checked against
+    the cache records of the others."""
+    if h.raw:
+        for i, rel in enumerate(sorted(h.raw_files)):
+            if i % 2 == half and rel.endswith((".py", ".pyi")):
+                h.raw_files[rel] = h.raw_files[rel] + "# bump\n"
+    else:
+        for i, mid in enumerate(sorted(h.state["mods"])):
+            if i % 2 == half:
+                h.state["mods"][mid]["pad"] = h.state["mods"][mid].get("pad", 0) + 3
+
+
+def run_revert_leg(h: histsim.History, ca: dict[str, Any], snap_f: str, pre_edit: tuple[Any, Any, Any],
+                   colds: dict[str, Any]) -> dict[str, Any] | None:
+    """Second continuation after the faulted run: the user undoes the edit (old contents, new
+    mtimes) and runs; then touches up one half of the files and runs, then the other half. A record
+    of the abandoned edit that the faulted run left behind must not be vouched for again."""
+    restore(h, snap_f)
+    saved = (copy.deepcopy(h.state), dict(h.raw_files), list(h.raw_argv), h.world.snapshot_files(), dict(h.mtimes))
+    try:
+        h.state, h.raw_files, h.raw_argv = copy.deepcopy(pre_edit[0]), dict(pre_edit[1]), list(pre_edit[2])
+        for name in ("revert", "bump0", "bump1"):
+            if name != "revert":
+                bump(h, int(name[-1]))
+            h.apply_step({"edits": [], "gap_s": 2.0})
+            if name not in colds:
+                colds[name] = h.cold()
+                if colds[name]["status"] not in (0, 1, 2):
+                    raise kit.HarnessError(f"cold run abnormal in revert leg: {colds[name]['status']}")
+            w = h.run("warm", **ca)
+            v = judge(w, colds[name])
+            if v is not None:
+                v["kind"] = "after_" + name + "_" + v["kind"]
+                return v
+        return None
+    finally:
+        h.state, h.raw_files, h.raw_argv = saved[0], saved[1], saved[2]
+        h.world.restore_files(saved[3])
+        h.mtimes = saved[4]
+
+
 def evaluate(scn: dict[str, Any], tag: str, only_plan: dict[str, Any] | None = None, n_random: int = 4) -> dict[str, Any]:
     """Executes the scenario with every fault plan (or only_plan); returns violations + stats."""
     h = histsim.History(scn, f"c04-{os.getpid()}-{tag}")
@@ -150,6 +192,7 @@ def evaluate(scn: dict[str, Any], tag: str, only_plan: dict[str, Any] | None = N
             r0 = h.run("warm", **ca)
             if r0["status"] not in (0, 1, 2):
                 raise kit.HarnessError(f"warm-up run abnormal: {r0['status']} {r0.get('traceback') or r0.get('stderr')}")
+        pre_edit = (copy.deepcopy(h.state), dict(h.raw_files), list(h.raw_argv))
         for st in scn["steps"]:
             h.apply_step(st)
         snap = snapshot(h, "f0")
@@ -171,6 +214,8 @@ def evaluate(scn: dict[str, Any], tag: str, only_plan: dict[str, Any] | None = N
         rng = kit.family_rng(PROP, "plans", kit.digest(scn))
         plans = [only_plan] if only_plan is not None else fault_plans(log, scn["config"], rng, n_random)
         follow = scn.get("followup")  # optional edit between faulted and clean run
+        revert_leg = not follow and scn.get("revert_leg", True)
+        revert_colds: dict[str, Any] = {}
         for plan in plans:
             faults = plan_to_faults(plan, log)
             if faults is None:
@@ -194,6 +239,10 @@ def evaluate(scn: dict[str, Any], tag: str, only_plan: dict[str, Any] | None = N
                 f2 = plan_to_faults(plan["second"], log)
                 if f2:
                     h.run("warm", faults=f2, **ca)
+            # the revert continuation triples the cost of a plan: every plan of the hand-shaped plugin
+            # members, every third plan (fixed by position) of the generated members
+            n_plan = stats["plans"]
+            snap_f = snapshot(h, "f1") if revert_leg and (only_plan is not None or "files" in scn or n_plan % 3 == 0) else None
             this_cold = cold
             if follow:
                 # a further edit before the clean run (state restored afterwards)
@@ -208,6 +257,8 @@ def evaluate(scn: dict[str, Any], tag: str, only_plan: dict[str, Any] | None = N
                 h.state = saved_state
                 h.world.restore_files(saved_files)
                 h.mtimes = saved_mtimes
+            if v is None and snap_f is not None:
+                v = run_revert_leg(h, ca, snap_f, pre_edit, revert_colds)
             if v is not None:
                 v["faulted_run_status"] = fr["status"]
                 violations.append({"plan": plan, "violation": v})
